@@ -164,6 +164,19 @@ prog_init(struct prog *p)
         struct rng r;
         rng_seed(&r, p->seed);
         p->mm = mm_new(p->cfg);
+        if (!p->mm && g_cfg_variant[p->cfg] >= 0) {
+                /* the configuration initialised fine alone (start-up probe): creating it while other managers are being
+                 * created or used gave a different result */
+                char key[160], det[240];
+                snprintf(key, sizeof key, "C17|%s|manager-creation-fails-next-to-other-managers", variant_name(g_cfg_variant[p->cfg]));
+                snprintf(det, sizeof det,
+                         "alloc_mb_mgr + init of configuration %s failed (or selected no architecture) while other managers were "
+                         "being created/used, although the same call succeeds alone",
+                         g_cfgs[p->cfg].name);
+                ev_violation("C17", key, det, NULL);
+                for (int t = 0; t < 200 && !p->mm; t++)
+                        p->mm = mm_new(p->cfg);
+        }
         if (!p->mm)
                 harness_fail("threads: configuration %d unavailable", p->cfg);
         p->mm->strict_errno = 2; /* M-ERRNO on the manager's own field; the API value is traced separately */
